@@ -76,6 +76,10 @@ def lhs_oracle(case):
     S2 = sutils.lhs(ns, lo.copy(), hi.copy())
     if not np.array_equal(S, S2):
         raise Violation("lhs not repeatable with the same seed")
+    np.random.seed(case["seed"])
+    S3 = sutils.lhs(ns, lo.tolist(), hi.tolist())
+    if not np.array_equal(S, S3):
+        raise Violation("lhs differs between array and list bounds")
     # plotting positions
     n, cst = case["n"], case["cst"]
     pp = sutils.ppos(n, cst)
@@ -128,6 +132,12 @@ def rank_oracle(case):
     labels = [f"kind:{case['kind']}"]
     un, rk = sutils.standard_normal(x.copy(), cst=case["cst"])
     un = np.asarray(un, dtype=np.float64)
+    un2, _ = sutils.standard_normal(pd.Series(x), cst=case["cst"])
+    un3, _ = sutils.standard_normal(x.tolist(), cst=case["cst"])
+    if not (np.array_equal(un, np.asarray(un2), equal_nan=True)
+            and np.array_equal(un, np.asarray(un3), equal_nan=True)):
+        raise Violation("standard_normal differs between array, Series and "
+                        "list input")
     if len(un) != n:
         raise Violation(f"standard_normal returns {len(un)} values")
     o = np.argsort(x, kind="stable")
